@@ -31,7 +31,9 @@ P = {
     }],
     "rule": "respond configuration (verbose, six override codes incl. 0, 1xx/2xx, negative and >999; 12 % written to a configuration file "
             "under the documented names and loaded by config.NewConfiguration, else put into the struct) x request (method GET/POST/HEAD/OPTIONS/"
-            "PUT/DELETE/PATCH/PROPFIND, 8 paths, 4 peers incl. loopback, 0-2 extra headers, no / one / two Accept lines: wildcards, q-values, "
+            "PUT/DELETE/PATCH/PROPFIND, 8 paths, 4 peers incl. loopback, 0-2 extra headers, request context live / cancelled before / cancelled while "
+            "the pipeline runs / deadline exceeded (22 %, then mostly with context.Canceled / DeadlineExceeded / *url.Error in the chain), "
+            "no / one / two Accept lines: wildcards, q-values, "
             "malformed, nothing acceptable) x error tree of depth <= 6, fan-out <= 4 built from real values (8 heimdall sentinels, other "
             "sentinels, *RedirectError incl. odd codes, a real *cellib.EvalError, 12 foreign leaf flavours incl. context.Canceled / "
             "DeadlineExceeded, io.EOF, syscall.ENOENT, *url.Error, *net.OpError, a type with HTTPStatus()/Timeout()/own Is, a struct with "
